@@ -57,3 +57,26 @@ Theorem C04_badfilter_cancels_same : forall L y z,
   In z L -> is_badfilter z = true -> same_modulo_badfilter y z -> ~ In y (live L).
 Proof. exact badfilter_cancels_same. Qed.
 Print Assumptions C04_badfilter_cancels_same.
+
+(* ------------------------------------------------------------------ translator tie: the control
+   structure of src/blocker.rs as extracted on this run (Generated.BlockerGen, written by
+   tools/gen_fragments/c01_blocker_structure.py) denotes the hand-written model *)
+From Coq Require Import String.
+From Adb Require Import Struct_Proofs.
+Import Generated.BlockerGen.
+
+(* exception is tested before important, in the batch constructor and in add_filter alike: an
+   exception rule carrying $important is an exception *)
+Theorem C04_src_category_chain_new : forall f c e,
+  run_chain (pv_of f c e) new_chain = cat_name (category_of f).
+Proof. exact new_chain_is_category_of. Qed.
+Print Assumptions C04_src_category_chain_new.
+
+Theorem C04_src_category_chain_add : forall f c e,
+  run_chain (pv_of f c e) add_chain = cat_name (category_of f).
+Proof. exact add_chain_is_category_of. Qed.
+Print Assumptions C04_src_category_chain_add.
+
+Theorem C04_src_badfilter_skip : forall f c e, eval (pv_of f c e) new_skip = c || is_badfilter f.
+Proof. exact new_skip_is_not_live. Qed.
+Print Assumptions C04_src_badfilter_skip.
